@@ -95,4 +95,18 @@ def recreateIoLine (c : List UInt8) (rs ws : String) (entries : List String) : S
       s!"{word} {k.out.length} {fnvNats k.out}"
   | _, _, _ => "bad-request"
 
+/-- `libraryio` request: `recreated_zlib_chunks` over a source / sink schedule in the model of the whole
+    library (`libRecreateIO`: concrete stream functions, no recorded answers) -/
+def libraryIoLine (c : List UInt8) (rs ws : String) : String :=
+  match parseSched rs, parseSched ws with
+  | some rs, some ws =>
+      let (res, _, k) := libRecreateIO crc32 ⟨toNats c, rs⟩ ⟨[], ws⟩
+      let word := match res with
+        | .ok () => "ok"
+        | .error (.panic _) => "panic"
+        | .error .fuel => "fuel"
+        | .error .err => "err"
+      s!"{word} {k.out.length} {fnvNats k.out}"
+  | _, _ => "bad-request"
+
 end Preflate.Driver
